@@ -1,20 +1,22 @@
+\* several endpoints per participant: receiver plugin 2 owns two endpoints (entities 2 and 12), both can be matched
+\* with the endpoint of sender 1; all receiver lists {}, {2}, {12}, {2,12}; tokens may go astray between the two
 SPECIFICATION Spec
 CONSTANTS
-  Senders = {1, 3}
+  Senders = {1}
   Receivers = {2}
-  Levels = {"payload", "submsg", "msg"}
+  Levels = {"submsg"}
   Kinds = {"gmac", "gcm"}
   OAs = {TRUE, FALSE}
   K256s = {TRUE, FALSE}
   Dirs = {"w2r", "r2w"}
-  Others = {"same", "none", "diff"}
+  Others = {"same", "diff"}
   Astray = TRUE
-  Eps2 = {}
+  Eps2 = {2}
   LooseList = FALSE
-  GenS = 0
+  GenS = 1
   LooseKid = FALSE
-  GenK = 4
-  GenC = 1
+  GenK = 40
+  GenC = 6
 VIEW View
 INVARIANT Inv_TamperedNeverDecodes
 INVARIANT Inv_NoKeyNoData
